@@ -141,6 +141,19 @@ PROPS = {
         "lemmas": ["C15.shared-table", "C15.compose-abbr", "C15.compose-long"],
         "native": "p15",
     },
+    "C05": {
+        "level": "other",
+        "level_text": "Mixed. Proved (contracts on the real functions, shared with C10 / C20 / C06, re-discharged by this check): the default parse stack is resolve-string-references then remove-enclosings and the default write stack is copy-mode AddEnclosing('{') (stack builders, no-argument forms); a value brace-enclosed by the default write stack and stripped again by RemoveEnclosing is the value it was, for every string value (lemma default-then-strip), and a value whose enclosing was recorded is restored exactly (lemma reuse-restores); the writer emits `key = value` lines of the stated shape, so the field order and the block order of the written text are those of the library (C06 clauses). Bounded (native, labelled): the round trip itself -- that the written text re-parses to the same blocks and that writing again is a byte-for-byte fixpoint -- for grammar-derived documents x BibtexFormat settings (needs the grammar lemma to connect writer output to splitter marks).",
+        "level_note": STD_NOTE + "; A-COPY (deepcopy), A-STR; the round-trip clause itself is decided bounded only.",
+        "modules": ["schema", "enclosing", "writer", "entrypoint"],
+        "tags": ["C05", "C10", "C20", "C06"],
+        "functions": [RE + "_strip_enclosing", RE + "transform_entry", AE + "__init__", AE + "_enclose", AE + "transform_entry",
+                      EPT + "_build_parse_stack#both-none", EPT + "_build_unparse_stack#both-none",
+                      W + "_treat_entry", W + "_treat_string", W + "_treat_block", W + "write"],
+        "lemmas": ["C10.reuse-restores", "C10.default-then-strip"],
+        "native": "p05",
+        "explanation": "proved: default stacks, enclose-then-strip identity, writer line shape and order (shared contracts); bounded: the parse-write-parse round trip and the fixpoint on grammar-derived documents x formats",
+    },
     "C10": {
         "level": "other",
         "level_text": "Mixed. Proved for all values and option combinations (contracts on the 7 real functions + 2 lemmas, 95 obligations): exactly one layer is stripped and its kind recorded, reuse restores the original, default enclosing, integer rule, no exception, frames. Bounded (native, labelled): an enclosed value written into an entry re-parses as one field (needs the grammar lemma).",
